@@ -1041,3 +1041,143 @@ Proof.
   - rewrite Er. apply supn_sup; auto.
   - discriminate.
 Qed.
+
+(* ------------------------------------------------------------------ *)
+(* definite verdicts                                                   *)
+(* ------------------------------------------------------------------ *)
+
+Lemma as_res_verdicts o v : as_res o = Some v -> verdicts o = [v].
+Proof.
+  destruct o as [[] [] [] [] []]; cbn; intros H; inversion H; reflexivity.
+Qed.
+
+Lemma tail_definite cfg t l ann x : tail cfg t l ann = Some x -> tail_all cfg t l ann = [x].
+Proof.
+  unfold tail, tail_all.
+  destruct (if tc_should_own cfg then validate_owner_reffed_r l (tc_owner_ref cfg) else Done (Reffed true)) as [rr|e];
+    [|intros H; inversion H; reflexivity].
+  destruct (extract_last_applied_r l ann) as [la|e]; [|intros H; inversion H; reflexivity].
+  destruct (as_res (vmatch t l la false)) as [v|] eqn:E; [|discriminate].
+  intros H. inversion H. rewrite (as_res_verdicts _ _ E). reflexivity.
+Qed.
+
+(* ------------------------------------------------------------------ *)
+(* reordering / extending a compare-as-map list is a decoration        *)
+(* ------------------------------------------------------------------ *)
+
+Lemma set_key_absent_app {A} k (v : A) kvs : lookup k kvs = None -> set_key k v kvs = kvs ++ [(k, v)].
+Proof.
+  induction kvs as [|[k' v'] r IH]; cbn; auto.
+  destruct (String.eqb k k'); [discriminate|]. intros H. rewrite IH; auto.
+Qed.
+
+Lemma nodup_app_inv l1 l2 k :
+  nodup_str (l1 ++ k :: l2) = true -> ~ In k l1 /\ nodup_str (l1 ++ l2) = true /\ ~ In k l2.
+Proof.
+  induction l1 as [|x r IH]; cbn.
+  - intros H. apply Bool.andb_true_iff in H. destruct H as [H1 H2].
+    apply Bool.negb_true_iff in H1. repeat split; auto.
+    intros C. apply v_mem_str_In in C. congruence.
+  - intros H. apply Bool.andb_true_iff in H. destruct H as [H1 H2].
+    apply Bool.negb_true_iff in H1. destruct (IH H2) as [A [B C]].
+    assert (Nx : ~ In x (r ++ k :: l2)) by (intros I; apply v_mem_str_In in I; congruence).
+    repeat split; auto.
+    + intros [E|I]; [subst; apply Nx, in_or_app; right; left; auto | auto].
+    + rewrite B, Bool.andb_true_r. apply Bool.negb_true_iff.
+      destruct (mem_str x (r ++ l2)) eqn:M; auto. exfalso. apply Nx.
+      apply v_mem_str_In in M. apply in_app_or in M. apply in_or_app. destruct M; auto. right. right. auto.
+Qed.
+
+Lemma lookup_notin_keys {A} k (kvs : list (string * A)) : ~ In k (map fst kvs) -> lookup k kvs = None.
+Proof.
+  induction kvs as [|[k' v] r IH]; cbn; auto. intros N.
+  destruct (String.eqb k k') eqn:E; [apply String.eqb_eq in E; subst; exfalso; auto|]. auto.
+Qed.
+
+(* with distinct keys the keyed view is just the list of (key, element) pairs *)
+Lemma l2o_pairs fields ps : forall acc,
+  (forall k o, In (k, o) ps -> obj_key o fields = Ret k) ->
+  nodup_str (map fst (acc ++ ps)) = true ->
+  l2o_items (map snd ps) fields acc = Ret (acc ++ ps).
+Proof.
+  induction ps as [|[k o] r IH]; intros acc K ND; cbn.
+  - rewrite app_nil_r. reflexivity.
+  - rewrite (K k o) by (left; auto).
+    rewrite map_app in ND. cbn in ND.
+    destruct (nodup_app_inv _ _ _ ND) as [N1 [N2 N3]].
+    rewrite set_key_absent_app by (apply lookup_notin_keys; auto).
+    rewrite IH.
+    + rewrite <- app_assoc. reflexivity.
+    + intros; apply K; right; auto.
+    + rewrite <- app_assoc. cbn. rewrite map_app. cbn. exact ND.
+Qed.
+
+Lemma nodup_str_NoDup l : nodup_str l = true <-> NoDup l.
+Proof.
+  induction l as [|x r IH]; cbn; [split; auto; constructor|].
+  rewrite Bool.andb_true_iff, Bool.negb_true_iff, IH. split.
+  - intros [A B]. constructor; auto. intros C. apply v_mem_str_In in C. congruence.
+  - intros H. inversion H. subst. split; auto.
+    destruct (mem_str x r) eqn:M; auto. apply v_mem_str_In in M. contradiction.
+Qed.
+
+Lemma lookup_perm {A} (l l' : list (string * A)) k :
+  Permutation l l' -> NoDup (map fst l) -> lookup k l = lookup k l'.
+Proof.
+  induction 1 as [|[k1 v1] l1 l2 P IH|[k1 v1] [k2 v2] l0|l1 l2 l3 P1 IH1 P2 IH2]; intros ND; cbn; auto.
+  - inversion ND. subst. rewrite IH; auto.
+  - inversion ND as [|? ? N1 N2]. subst.
+    destruct (String.eqb k k2) eqn:E2; destruct (String.eqb k k1) eqn:E1; auto.
+    apply String.eqb_eq in E1, E2. subst. exfalso. apply N1. left. reflexivity.
+  - rewrite IH1 by auto. apply IH2.
+    eapply Permutation_NoDup; [|exact ND]. apply Permutation_map. exact P1.
+Qed.
+
+Lemma lookup_app_l {A} k (l1 l2 : list (string * A)) v : lookup k l1 = Some v -> lookup k (l1 ++ l2) = Some v.
+Proof.
+  induction l1 as [|[k' v'] r IH]; cbn; [discriminate|].
+  destruct (String.eqb k k'); auto.
+Qed.
+
+(* C04: "... map-directed lists in any order": a compare-as-map list whose
+   elements have distinct keys may be permuted and extended by further
+   elements (with further distinct keys); that is a decoration in the sense of
+   [decorates] for every target view T whose keys are ordinary *)
+Theorem as_map_reorder_extend_decorates fields ps extra ps' Tk :
+  ps <> [] ->
+  (forall k o, In (k, o) (ps ++ extra) -> obj_key o fields = Ret k) ->
+  nodup_str (map fst (ps ++ extra)) = true ->
+  Permutation (ps ++ extra) ps' ->
+  (forall k v, In (k, v) Tk -> plain_key k = true) ->
+  list_to_object (JList (map snd ps)) fields = Ret (JMap ps) /\
+  list_to_object (JList (map snd ps')) fields = Ret (JMap ps') /\
+  decorates (JMap Tk) false (JMap ps) (JMap ps').
+Proof.
+  intros NE K ND P PT.
+  assert (ND1 : nodup_str (map fst ps) = true).
+  { apply nodup_str_NoDup. apply nodup_str_NoDup in ND. rewrite map_app in ND.
+    clear -ND. induction (map fst ps) as [|x r IH]; [constructor|].
+    cbn in ND. inversion ND. subst. constructor; auto.
+    intros C. apply H1. apply in_or_app. auto. }
+  assert (ND' : nodup_str (map fst ps') = true).
+  { apply nodup_str_NoDup. apply nodup_str_NoDup in ND.
+    eapply Permutation_NoDup; [|exact ND]. apply Permutation_map. exact P. }
+  assert (K' : forall k o, In (k, o) ps' -> obj_key o fields = Ret k).
+  { intros k o I. apply K. eapply Permutation_in; [apply Permutation_sym; exact P | exact I]. }
+  assert (NE' : ps' <> []).
+  { intros E. subst. apply Permutation_sym, Permutation_nil in P.
+    destruct ps; [congruence | discriminate P]. }
+  repeat split.
+  - unfold list_to_object. destruct ps as [|p0 pr]; [congruence|]. cbn [map py_truthy negb py_iter].
+    change (snd p0 :: map snd pr) with (map snd (p0 :: pr)).
+    rewrite (l2o_pairs fields (p0 :: pr) []); auto.
+    intros; apply K; apply in_or_app; auto.
+  - unfold list_to_object. destruct ps' as [|p0 pr]; [congruence|]. cbn [map py_truthy negb py_iter].
+    change (snd p0 :: map snd pr) with (map snd (p0 :: pr)).
+    rewrite (l2o_pairs fields (p0 :: pr) []); auto.
+  - eapply (dec_map _ _ _ _ [] [] []); [apply dirs_of_plain; exact PT | |].
+    + intros k tv v I _ _ L. exists v. split; [|apply dec_same].
+      rewrite <- (lookup_perm _ _ k P) by (apply nodup_str_NoDup; exact ND).
+      apply lookup_app_l. exact L.
+    + intros k tv v fs T A _ _ C. discriminate C.
+Qed.
